@@ -19,7 +19,7 @@ callees are resolved by the real overload resolution.
 import collections
 import re
 
-from rkstatic.x_vecexpr import (COMPS, FnView, Formula, Inliner, Poly, calls_in, commute, ctor_fields, fold_consts, subst_params, unroll, flatten, poly, show, strip_casts, subst,
+from rkstatic.x_vecexpr import (COMPS, FnView, Formula, Inliner, Poly, calls_in, commute, ctor_fields, fold_consts, map_terms, subst_params, unroll, flatten, poly, show, strip_casts, subst,
                                 tclean, tkey, tparse, unknowns, vecshape)
 
 LEVEL = 'other'
@@ -390,6 +390,54 @@ def fam_lifted(res, s, v, apply_):
     check_slots(res, s, slots, vec_operands(s), exp, 'of `%s`' % s.name)
 
 
+SMALL_INT = {'char', 'signed char', 'unsigned char', 'short', 'unsigned short', 'bool'}
+
+
+def reexpressed_scalar(res, s, v, tu, f, name):
+    """a lifted functor written as the scalar definition's expression over whole vectors (`(a + b - T(1)) / b` for divRoundUp):
+    every vec_t operator returns vec_t<T>, so each intermediate is narrowed to T, whereas the scalar function evaluates the same
+    expression after the integer promotions and converts only the final result.  True if a verdict was recorded."""
+    t = single_return(v)
+    if t is not None:
+        t = unwrap_vec(t)
+    if t is None or t[0] == 'ctor':
+        return False
+    cands = []
+    for g in tu.functions.values():
+        if g.get('rec') or g['id'] == f['id'] or len(g['params']) != len(s.params):
+            continue
+        if (tu.node(g['id']) or {}).get('name') != name:
+            continue
+        gs = signature(tu, g)
+        if all(p['k'] == 'scalar' for p in gs.params) and (g['dep'] or not g.get('pat')):
+            cands.append(g)
+    if len(cands) != 1:
+        return False
+    sb = single_return(FnView(tu, cands[0]))
+    if sb is None:
+        return False
+    norm = lambda x: commute(strip_casts(x, pred=lambda ty: True), ops=('+', '*'))
+    if norm(t) != norm(sb):
+        return False
+    nops = []
+    map_terms(norm(t), lambda x: (nops.append(1), x)[1] if x[0] == 'b' and x[1] in ('+', '-', '*', '/', '%') else x)
+    if len(nops) < 2:
+        return False
+    elem = s.params[0]['sh']['elem']
+    if not f['dep'] and elem not in SMALL_INT:
+        res.ok(R2, '%s written as the scalar definition `%s` over whole vectors: identical for element type %s (no integer promotion '
+                   'between the operations)' % (name, show(sb, s.names), elem))
+        res.ok(R1, 'component-wise through the lifted operators of vec.h')
+        res.vector_level = True
+        return True
+    res.bad(R2, '%s is written as the scalar definition\'s expression `%s` over whole vectors: each vec_t operator narrows its result to '
+                'the element type, whereas the scalar %s evaluates the %d operations after the integer promotions and converts only the '
+                'result - for 8/16-bit elements the intermediate wraps (divRoundUp(vec2uc(200,250), vec2uc(100,7)) -> (0,0) instead of '
+                '(2,36)); the lifting must apply the scalar function per component' % (name, show(t, s.names), name, len(nops)),
+            'functor-reexpressed')
+    return True
+
+
 def norm_compound(t):
     """a.k = a.k op R  ->  a.k op= R"""
     if t[0] == 'asg' and t[1] == '=' and t[3][0] == 'b' and t[3][1] in ('+', '-', '*', '/', '%'):
@@ -639,6 +687,28 @@ def fam_compare(res, s, v, spec, what):
         return
     t = strip_casts(expand_vec_cmp(t, s, n))
     g = spec(n)
+    bytewise, computed = [], []
+
+    def scan_atoms(x):
+        if x[0] == 'b' and x[1] in ('<', '>', '<=', '>=', '==', '!='):
+            for side in (x[2], x[3]):
+                cs = calls_in(side)
+                if cs & {'memcmp', 'bcmp', '__builtin_memcmp'}:
+                    bytewise.append(show(x, s.names))
+                elif cs:
+                    computed.append(show(x, s.names))
+        elif x[0] == 'u' and x[1] == '!' and x[2][0] == 'call' and x[2][1] in ('memcmp', 'bcmp', '__builtin_memcmp'):
+            bytewise.append(show(x, s.names))
+        return x
+    map_terms(t, scan_atoms)
+    if bytewise:
+        res.bad(R3, '%s compares the object representation (`%s`) instead of the component values: for floating-point elements '
+                    '-0.0 == +0.0 by value but their bytes differ (and equal NaN bit patterns compare equal), so the result is not the '
+                    'conjunction/ordering of the scalar comparisons' % (what, bytewise[0][:120]), 'bytewise-compare')
+        return
+    if computed:
+        res.und(R3, '%s: compares a computed value (%s); not an order atom over components' % (what, computed[0][:120]))
+        return
     fm = Formula(names=s.names)
     fm.scan(t)
     fm.scan(g)
@@ -1003,6 +1073,19 @@ def fam_ptr(res, s, v):
 def fam_vecconv(res, s, v):
     t = single_return(v)
     n = s.shape['n']
+    if s.ret.rstrip().endswith('&'):
+        # the conversion hands out a reference instead of a converted value
+        inner = strip_casts(t, pred=lambda ty: True) if t is not None else None
+        if inner is not None and inner[0] == 'u' and inner[1] == '*':
+            src = strip_casts(inner[2], pred=lambda ty: True)
+            if src == ('this',) or first_field_addr(src) is not None:
+                res.bad(R5, 'conversion operator returns `%s`: a reference to the source object\'s own storage reinterpreted as %s, not a '
+                            'converted value - when the source is a temporary (the result of normalize / min / max / unary minus on the '
+                            'padded shape) a `const vec_t<T,3> &` bound to the conversion dangles after the full expression and no longer '
+                            'holds the source\'s components' % (show(t, s.names), tkey(s.ret)), 'conv-view')
+                return
+        res.und(R5, 'vec conversion operator returns a reference: %s' % (show(t, s.names) if t else 'body not understood'))
+        return
     if t is None or t[0] != 'ctor':
         res.und(R5, 'vec conversion operator: body is not `return V(...)`')
         return
@@ -1129,7 +1212,11 @@ def classify(tu, f, s):
     if name in COMPOUND and len(ps) == 2 and kinds[0] == 'vec' and kinds[1] in ('vec', 'scalar'):
         return 'compound assignment (vec op= %s)' % ('vec' if kinds[1] == 'vec' else 'scalar'), fam_compound
     if name in LIFTED_CALLS and len(ps) == LIFTED_CALLS[name] and all(k == 'vec' for k in kinds):
-        return 'lifted functor', lambda res, s, v: fam_lifted(res, s, v, lambda o: ('call', name, tuple(o)))
+        def lifted(res, s, v):
+            if reexpressed_scalar(res, s, v, tu, f, name):
+                return
+            fam_lifted(res, s, v, lambda o: ('call', name, tuple(o)))
+        return 'lifted functor', lifted
     if name == 'operator==' and kinds == ['vec', 'vec']:
         return 'comparison', lambda res, s, v: fam_compare(res, s, v, spec_eq, 'operator==')
     if name == 'operator!=' and kinds == ['vec', 'vec']:
@@ -1348,7 +1435,7 @@ def analyse(ctx, tu, label='', ir=None):
             n_pat += 1
         else:
             n_typed += 1
-            if not any(it[0] != 'ok' for it in res.items):
+            if not any(it[0] != 'ok' for it in res.items) and not getattr(res, 'vector_level', False):
                 typed_callee_check(res, s, v, tu, f, fam)
         decided_by_ir(res, s, ir)
         decided = all(it[0] == 'ok' for it in res.items)
